@@ -4,6 +4,7 @@ import StatimeModel.Model.Instance
 import StatimeModel.Lemmas.BmcaBind
 import StatimeModel.Generated.DatasetComparison
 import StatimeModel.Generated.StateDecision
+import StatimeModel.Generated.PortMove
 /-
 C05 — BMCA state decision matches IEEE 1588 for every data set combination.
 
@@ -400,7 +401,7 @@ example : Good sampleA ∧ Good sampleB ∧ Cons sampleA sampleB ∧ Best.compar
 meaning is given by the interpreter of `Lemmas/CmpGen.lean`.  The theorems below re-prove, against whatever the
 source says now, that this meaning is the hand-written model the theorems above are about. -/
 section Translated
-open Statime.CmpGen Statime.DecGen
+open Statime.CmpGen Statime.DecGen Statime.MoveGen
 
 theorem generated_figure34_is_model (a b : CmpDS) :
     ∀ keys arms, Generated.figure34Chain = some keys → Generated.figure34Arms = some arms →
@@ -549,6 +550,22 @@ theorem generated_best_compare_is_model (x y : Best) :
     cases ((CmpDS.ofAnnounce x.ann x.identity).compare (CmpDS.ofAnnounce y.ann y.identity)).asOrdering <;> rfl)
 
 theorem generated_find_best_is_max : Generated.findBestIsMaxBy ≠ some false := by decide
+
+/-- **`set_recommended_port_state` as translated on this run is the model's `portMove`** ("application of the
+decision"): for S1, for M1 / M2 / M3 (slave-only instance, port disabled by a sibling, otherwise) and for P1 / P2, per
+current port state: whether the port moves, where to, and which timer actions become pending - for every port,
+recommendation and default data set. In particular a Faulty port is moved by no decision code. -/
+theorem generated_port_move_is_model (p : Port) (r : Recommended) (d : DefaultDS) :
+    ∀ t, Generated.portMoveTable = some t → evalPortMove t p r d = some (portMove p r d) := by
+  intro t h
+  unfold Generated.portMoveTable at h
+  cases h
+  all_goals (
+    unfold evalPortMove portMove
+    cases r <;> cases hs : p.st <;> by_cases h1 : d.slaveOnly = true <;>
+      by_cases h2 : p.multiportDisable.isSome = true <;>
+      simp [evalS1, evalMoves, lookupK, memK, SK.of, Move.eval, Tgt.toP, PAct.out, remoteOf, h1, h2] <;>
+      (try split) <;> simp_all)
 
 end Translated
 
